@@ -64,6 +64,32 @@ CLAIMS = {
         technique="finite-domain abstract interpretation + finite-state exploration + units-of-measure (index space) "
                   "inference over resolved ASTs",
     ),
+    "C08": dict(
+        category="other",
+        text="One iteration of the driver loop is interpreted over the finite abstract domain (recovery_mode, "
+             "consume_mode) x entry kind x {lexer failure, stack empty after pop, pending term is <eof>} with the "
+             "helper members inlined; the extracted transition relation (next modes, ordered stack/input/report "
+             "actions, loop exit) is compared row by row with the documented recovery algorithm (96 abstract "
+             "cases, exhaustive). Unreachable rows are justified by reachability over the relation (MODES), by "
+             "the abstract behaviour of get_current_term (GCT) and by the kinds the table builder can put into "
+             "the error-token column (ERRCOL). Holds for every grammar, input and error placement.",
+        design_ref="DESIGN.md 5/C08 + appendix B",
+        note=TB + " Not decided: which states accept the error symbol (LR table, C01).",
+        technique="finite-domain abstract interpretation of the driver loop with inlined helpers, compared with a "
+                  "reference transition table",
+    ),
+    "C09": dict(
+        category="other",
+        text="The driver relation extracted as for C08 is queried for reporting: 'Syntax error' exactly once and "
+             "only on the normal->recovery edge, 'Unexpected character' exactly once immediately before the "
+             "lexer-failure sentinel after which the driver leaves the loop without any action, input consumed "
+             "only by a shift or the documented discard, the result optional written only on the success edge, "
+             "message contents (position first, offending term / byte), no unguarded stream write elsewhere.",
+        design_ref="DESIGN.md 5/C09",
+        note=TB + " Not decided: that an error entry is met exactly when the input leaves the language and at the "
+                  "first offending term (canonical LR(1) property of the table, C01).",
+        technique="finite-domain abstract interpretation of the driver loop + effect analysis of stream writes",
+    ),
 }
 
 NOT_APPLICABLE = {
